@@ -160,3 +160,30 @@ Lemma bound_after_order_original :
   s_send (fun _ => None) None [ac 2 21; ac 1 11] = ([Ev 11; Ev 21], RNil) /\
   bound_call fixed (fun _ => None) [ac 2 21; ac 1 11] = ([Ev 11; Ev 21], RNil).
 Proof. vm_compute. repeat split. Qed.
+
+(* ---- the fuel of continue_whopper is never exhausted, whatever the number of whoppers ------------------------------- *)
+Lemma run_wrap_fuel : forall b k, snd k <> ROutOfFuel -> snd (run_wrap b k) <> ROutOfFuel.
+Proof. intros [id [|] | v | v |] k H; simpl; try exact H; discriminate. Qed.
+Lemma scan_lt : forall l i j b, scan_wrap l i = Some (j, b) -> i <= j < i + length l.
+Proof.
+  intros l i j b H. assert (S := scan_spec l i). rewrite H in S. destruct S as (pre & c & post & Hl & _ & _ & Hj).
+  subst. rewrite app_length. simpl. lia.
+Qed.
+Lemma continue_fuel : forall fuel cs inner current, snd inner <> ROutOfFuel -> 1 <= fuel -> length cs <= fuel + current ->
+  snd (continue_whopper fuel cs inner current) <> ROutOfFuel.
+Proof.
+  induction fuel as [| k IH]; intros cs inner current Hi Hf Hq; [lia |]. cbn [continue_whopper]. unfold wrap_from.
+  destruct (scan_wrap (skipn (S current) cs) (S current)) as [[j b] |] eqn:E; [| exact Hi].
+  apply scan_lt in E. rewrite skipn_length in E. apply run_wrap_fuel. apply IH; [exact Hi | lia | lia].
+Qed.
+Theorem send_never_out_of_fuel : forall cs inner, snd inner <> ROutOfFuel -> snd (method_call cs inner) <> ROutOfFuel.
+Proof.
+  intros cs inner Hi. unfold method_call, wrap_from. simpl skipn. destruct (scan_wrap cs 0) as [[i b] |] eqn:E; [| exact Hi].
+  apply scan_lt in E. apply run_wrap_fuel. apply continue_fuel; [exact Hi | lia | lia].
+Qed.
+Lemma inner_call_fuel : forall r b vars arg cs, snd (inner_call r b vars arg cs) <> ROutOfFuel.
+Proof.
+  intros. unfold inner_call. simpl. destruct (first_prim b cs) as [[id c | v | v |] |]; simpl; try discriminate.
+  - destruct (vars v) as [[z |] |]; discriminate.
+  - destruct arg; discriminate.
+Qed.
